@@ -381,4 +381,26 @@ example :
     ¬ NamesClean suites ∧
     errOf (newLibrary pathJoin suites (inSet [pinnedCase]) .client) = some (.duplicateName "a/b/c") := by decide
 
+/-! ### the run mode (glue of `run()`): which suites a command combination admits -/
+
+/-- a client-only suite is admitted exactly when only a client command was given, a server-only
+suite exactly when only a server command was given, a suite without mode always: for every
+combination of commands. -/
+theorem runMode_admits (s : Suite) (clientCmd serverCmd : Bool) :
+    ModeAdmits s (runMode clientCmd serverCmd) ↔
+      (s.mode = .unspec ∨ (s.mode = .client ∧ clientCmd = true ∧ serverCmd = false) ∨
+        (s.mode = .server ∧ clientCmd = false ∧ serverCmd = true)) := by
+  unfold ModeAdmits runMode
+  cases clientCmd <;> cases serverCmd <;> cases hm : s.mode <;> simp
+
+/-- with both commands (or neither) given, suites restricted to one mode contribute nothing -/
+theorem runMode_both_excludes (s : Suite) (b : Bool) (h : s.mode ≠ .unspec) :
+    ¬ ModeAdmits s (runMode b b) := by
+  unfold ModeAdmits runMode
+  cases b <;> simp [h]
+
+example : ModeAdmits (pinnedSuite "S" ["x"]) (runMode true true) ∧
+    ¬ ModeAdmits { pinnedSuite "S" ["x"] with mode := .client } (runMode true true) ∧
+    ModeAdmits { pinnedSuite "S" ["x"] with mode := .client } (runMode true false) := by decide
+
 end ConfModel.Props.C07
